@@ -52,12 +52,15 @@ known_findings.d/C07.json, the first is open); the name is decided from the wire
 Consequence: any defect that shows only after an abandoned transfer is reported under the name
 `stale_request_state_after_abandoned_transfer` (fatal since that finding is fixed).
 After a contradiction nothing more is judged on that device (its state is unknown); the case continues on a new one.
-Thorough tier: 30 % of the devices use luna's 60 MHz full-speed timing tables (`always_fs=False`, `full_speed_only`).
+Device configuration per session (both tiers): 30 % use luna's 60 MHz full-speed timing tables (`always_fs=False`,
+`full_speed_only` held), endpoint-0 packet size from {64, 8, 16, 32}, and in 30 % the standard handler is built with
+`skiplist=[GET_CONFIGURATION]` while the check's own handler claims that request (answer 0x5A): a skiplisted standard
+request must fall through.  SETUP transactions to the device's address with endpoint != 0 are part of the foreign
+traffic (answer not judged, endpoint 0 must not be affected; mechanism `setup_for_other_endpoint_disturbs_ep0`).
 
 Not judged: content of GET_STATUS (length and PID only); STALL behaviour for unsupported requests (C10); data
 content rules at multiples of the packet size (C09: such lengths are not generated); corrupted packets (C02/C06:
-not generated - a CRC-damaged short data packet wedges the SETUP decoder, finding C06); SETUP tokens to
-endpoints other than 0 (no real host sends them; luna's control endpoint restarts on them); everything after
+not generated - a CRC-damaged short data packet wedges the SETUP decoder, finding C06); everything after
 wrong-direction tokens / PING inside a transfer except the "no data outside the data stage" rule;
 re-sent status OUT after the device's ACK was lost; timing beyond "answers within 48 cycles".
 """
@@ -74,6 +77,8 @@ RULE = ("case = session of 10-18 episodes on one USBDevice with random descripto
 REQUIRED_BINS = [
     "xfer_get_descriptor", "xfer_get_status", "xfer_get_configuration", "xfer_set_configuration", "xfer_set_address",
     "xfer_clear_halt", "xfer_vendor_in_data", "xfer_vendor_in_wlength0", "xfer_vendor_out_data", "xfer_vendor_out_wlength0",
+    "timing_fs60", "timing_fs12", "ep0_mps_8", "ep0_mps_16", "ep0_mps_32", "ep0_mps_64", "skiplist_get_configuration",
+    "skiplist_empty", "setup_other_endpoint_mid_transfer", "setup_other_endpoint_between_transfers", "foreign_own_setup_other_ep",
     "multi_packet_data_stage", "early_status", "last_data_ack_lost_then_status",
     "ctrl_data_unacked_then_retried", "status_zlp_unacked_then_retried",
     "junk_setup_only", "junk_double_setup", "junk_partial_data", "junk_data_no_status", "junk_status_token_only",
@@ -94,7 +99,7 @@ REQUIRED_EVENTS = ["vendor_actions_judged", "out_data_packets_judged", "setups_j
                    "bulk_in_packets_seen", "device_acks_seen", "sessions"]
 ASSUMPTIONS = [
     "host timing: inter-packet gaps 2-8 cycles, host ACK 1-4 cycles after the device packet, device must start answering within 48 cycles",
-    "no CRC-damaged packets are generated (C02/C06), no SETUP token to endpoints other than 0",
+    "no CRC-damaged packets are generated (C02/C06); the answer to a SETUP for an endpoint other than 0 is not judged",
     "descriptor lengths and min(wLength, length) are never non-zero multiples of 64 when a terminating ZLP would be needed (C09)",
     "after the first contradiction nothing more is judged on that device; the case continues on a freshly elaborated one",
     "the four history-based mechanism names are decided from the wire history only (abandoned transfer before / foreign ACK inside the failing transfer)",
@@ -102,7 +107,7 @@ ASSUMPTIONS = [
 TIMEOUT = {"quick": 3000, "thorough": 6 * 3600}      # generous: the machine may be heavily shared
 
 
-def build_device(descs, *, bulk_mps=8, fs60=False):
+def build_device(descs, *, bulk_mps=8, fs60=False, ep0_mps=64, skip_get_config=False):
     """Real luna device: control endpoint with standard handlers, bulk IN ep1, bulk OUT ep2, passive spy endpoint."""
     from amaranth import Elaboratable, Module
     from luna.gateware.interface.utmi import UTMIInterface
@@ -131,9 +136,11 @@ def build_device(descs, *, bulk_mps=8, fs60=False):
         ZLP;  wLength == 0 (either direction bit): status IN gets a ZLP.  `action_count` counts host ACKs of a
         status ZLP (the request's action).  It is the stage FSM of the real USBControlEndpoint that is judged."""
         REQUEST = 0x51
+        SKIPPED_BYTE = 0x5A        # answer to the standard GET_CONFIGURATION when the standard handler skiplists it
 
-        def __init__(self):
+        def __init__(self, claim_get_config=False):
             super().__init__()
+            self.claim_get_config = claim_get_config
             self.action_count = Signal(8)
 
         def elaborate(self, platform):
@@ -144,12 +151,18 @@ def build_device(descs, *, bulk_mps=8, fs60=False):
             sending, zlp_sent = Signal(), Signal()
             has_data = setup.length != 0
             m.d.comb += n.eq(Mux(setup.length > 4, 4, setup.length[0:3]))
-            with m.If((setup.type == 2) & (setup.request == self.REQUEST)):
+            mine = (setup.type == 2) & (setup.request == self.REQUEST)
+            base = setup.value[0:8]
+            if self.claim_get_config:
+                skipped = (setup.type == 0) & (setup.request == 8)
+                mine = mine | skipped
+                base = Mux(skipped, self.SKIPPED_BYTE, base)
+            with m.If(mine):
                 m.d.comb += i.claim.eq(1)
                 with m.If(i.data_requested & setup.is_in_request & has_data):
                     m.d.usb += [sending.eq(1), idx.eq(0)]
                 with m.If(sending):
-                    m.d.comb += [tx.valid.eq(1), tx.payload.eq(setup.value[0:8] + idx), tx.first.eq(idx == 0),
+                    m.d.comb += [tx.valid.eq(1), tx.payload.eq(base + idx), tx.first.eq(idx == 0),
                                  tx.last.eq(idx == n - 1)]
                     with m.If(tx.ready):
                         m.d.usb += idx.eq(idx + 1)
@@ -178,8 +191,15 @@ def build_device(descs, *, bulk_mps=8, fs60=False):
     coll = DeviceDescriptorCollection(automatic_language_descriptor=False)
     for (t, i), raw in sorted(descs.items()):
         coll.add_descriptor(raw, index=i, descriptor_type=t)
-    ctrl = dev.add_standard_control_endpoint(coll)
-    ctrl.vendor_handler = VendorHandler()
+    from luna.gateware.usb.usb2.control import USBControlEndpoint
+    ctrl = USBControlEndpoint(utmi=dev.utmi, max_packet_size=ep0_mps)
+    if skip_get_config:
+        # the standard handler must decline GET_CONFIGURATION; the check's own handler claims it instead
+        ctrl.add_standard_request_handlers(coll, skiplist=[lambda setup: setup.request == 8])
+    else:
+        ctrl.add_standard_request_handlers(coll)
+    dev.add_endpoint(ctrl)
+    ctrl.vendor_handler = VendorHandler(claim_get_config=skip_get_config)
     ctrl.add_request_handler(ctrl.vendor_handler)
     ep_in = USBStreamInEndpoint(endpoint_number=C.Session.BULK_IN_EP, max_packet_size=bulk_mps)
     ep_out = USBStreamOutEndpoint(endpoint_number=C.Session.BULK_OUT_EP, max_packet_size=bulk_mps)
@@ -198,6 +218,19 @@ def start_device(b, dev, utmi, ep_in, ep_out, fs60=False):
     b.set(ep_in.stream.payload, 0xA5)
     b.set(ep_in.stream.last, 0)
     b.set(ep_out.stream.ready, 1)
+
+
+def draw_config(rng, res):
+    """Device configuration of a session: luna's 60 MHz full-speed timing tables (what the ULPI path uses) or the 12 MHz
+    ones, endpoint-0 packet size, and whether the standard handler skiplists GET_CONFIGURATION (served by the check's
+    own handler then)."""
+    fs60 = rng.random() < 0.3
+    ep0_mps = rng.choice([64, 64, 64, 8, 16, 32])
+    skip_get_config = rng.random() < 0.3
+    res.bin("timing_fs60" if fs60 else "timing_fs12")
+    res.bin("ep0_mps_%d" % ep0_mps)
+    res.bin("skiplist_get_configuration" if skip_get_config else "skiplist_empty")
+    return fs60, ep0_mps, skip_get_config
 
 
 def draw_profiles(rng):
@@ -222,19 +255,20 @@ def run_case(rng, tier, res):
 
 def run_session(rng, res, n_episodes, tier):
     descs = C.make_descriptors(rng)
-    fs60 = tier == "thorough" and rng.random() < 0.3      # thorough tier: also luna's 60 MHz full-speed timing tables
-    dev, utmi, ctrl, ep_in, ep_out, spy = build_device(descs, fs60=fs60)
+    fs60, ep0_mps, skip_get_config = draw_config(rng, res)
+    dev, utmi, ctrl, ep_in, ep_out, spy = build_device(descs, fs60=fs60, ep0_mps=ep0_mps, skip_get_config=skip_get_config)
     b = Bench(dev, domain="usb", freq=60e6, max_cycles=90000)
     gap_profile, ready_profile = draw_profiles(rng)
     host = UTMIHost(b, utmi, rng, timing="fs60" if fs60 else "fs12", ready_profile=ready_profile, gap_profile=gap_profile)
     acks_in_windows = rng.random() < 0.6
     ses = C.Session(b, host, rng, res, descs, utmi, foreign_ack_in_windows=acks_in_windows,
-                    resp_window=120 if fs60 else C.RESP_WINDOW)
+                    resp_window=120 if fs60 else C.RESP_WINDOW, mps=ep0_mps,
+                    get_config_override=0x5A if skip_get_config else None)
     b.watch(ctrl.vendor_handler.action_count)
     ses.vendor_action = lambda: b.get(ctrl.vendor_handler.action_count)
     p_junk = rng.choice([0.0, 0.3, 0.5, 0.7])
     p_inter = rng.choice([0.0, 0.3, 0.5, 0.7])
-    d = {"gap_profile": gap_profile, "ready_profile": ready_profile, "timing": "fs60" if fs60 else "fs12", "p_junk": p_junk, "p_inter": p_inter, "foreign_acks_in_vulnerable_windows": acks_in_windows,
+    d = {"gap_profile": gap_profile, "ready_profile": ready_profile, "timing": "fs60" if fs60 else "fs12", "ep0_mps": ep0_mps, "skiplist_get_configuration": skip_get_config, "p_junk": p_junk, "p_inter": p_inter, "foreign_acks_in_vulnerable_windows": acks_in_windows,
          "descriptors": {"%d/%d" % k_: len(v) for k_, v in sorted(descs.items())}, "episodes": n_episodes}
     res.desc["sessions"].append(d)
     res.sig(gap_profile, ready_profile, sorted(descs.items()))
